@@ -83,7 +83,7 @@ def oracle(case):
     r.nontrivial = any(is_optional(p["typ"]) for _n, p in ps) and any("Literal" in p["typ"] for _n, p in ps) and any("default" in p for _n, p in ps)
     try:
         with core.quiet():
-            sch = hops.load()["cdd"].json_schema.emit.json_schema(ir, *([case["identifier"]] if case.get("identifier", "https://example.com/foo.schema.json") else []))
+            sch = hops.load()["cdd"].json_schema.emit.json_schema(ir, *([case.get("identifier", "https://example.com/foo.schema.json")] if case.get("identifier", "https://example.com/foo.schema.json") else []))
     except Exception as e:
         r.fail("emit-raises", core.exc_bucket(e))
         return r
